@@ -146,12 +146,20 @@ def finite(xs):
     return all(x == x and abs(x) != float('inf') for x in xs)
 
 
-def diag_eval(ctx, expr):
+def par_eval(ctx, jobs, workers=4):
+    """jobs: (tag, imports, cases, shard, preamble); several coq_eval calls at once (each spawns coqc processes)"""
+    from concurrent.futures import ThreadPoolExecutor
+    with ThreadPoolExecutor(max_workers=workers) as ex:
+        futs = [ex.submit(coq_eval, ctx, tag, imports, cases, shard, 900, pre) for tag, imports, cases, shard, pre in jobs]
+        return [f.result() for f in futs]
+
+
+def diag_eval(ctx, expr, preamble=''):
     """print the expected values of one row (only for the case that gets reported)"""
-    res, errs = coq_eval(ctx, 'c05diag', IMPORTS + ['ZepidGen.Gen_weights_Q'], [expr], shard=1)
+    res, errs = coq_eval(ctx, 'c05diag', IMPORTS + ['ZepidGen.Gen_weights_Q'], [expr], shard=1, preamble=preamble)
     if errs or res[0] is None:
         return 'n/a'
-    return [('NaN' if v[1] == 0 else str(Fraction(v[0], v[1]))) if len(v) == 2 and v[1] >= 0 and not set(v) <= {0, 1} else v for v in res[0]]
+    return [('NaN' if v[1] == 0 else repr(float(Fraction(v[0], v[1])))) if len(v) == 2 and v[1] >= 0 and not set(v) <= {0, 1} else v for v in res[0]]
 
 
 # =============================================================================================== IPTW
@@ -222,7 +230,7 @@ def run_iptw(cs, stab, std, numer, bound, fails, size):
 
 def iptw_part(ctx, fails, cases):
     side = sidecar() if ctx.gen.get('weights', {}).get('ok') else {}
-    exprs, work = [], []
+    jobs, work = [], []
     for cs in cases:
         size = len(cs['frame']['index'])
         ctx.evaluations += 1
@@ -249,9 +257,9 @@ def iptw_part(ctx, fails, cases):
                 if res > 1e-6:
                     ctx.broken_ties.append('oracle: logistic score equations not solved for A ~ %s (residual %.3g)' % (rhs, res))
         # one Coq case per frame: shared vectors are let-bound once, every combination is one entry of the result list
-        lets = ['let a := %s in' % bls(a), 'let rd := %s in' % qls(raw_d), 'let ones := repeat 1 %d in' % n]
+        lets = ['Definition a := %s.' % bls(a), 'Definition rd := %s.' % qls(raw_d), 'Definition ones : list Q := repeat 1 %d.' % n]
         for k, numer in enumerate(cs['numers']):
-            lets.append('let rn%d := %s in' % (k, qls(raw[numer]['n'])))
+            lets.append('Definition rn%d := %s.' % (k, qls(raw[numer]['n'])))
         entries, combos = [], []
         for bi, (bname, bound, lohi) in enumerate(bounds_for(raw_d, cs['seed_bounds'])):
             bq = 'None' if lohi is None else 'Some (%s, %s)' % (ql(lohi[0]), ql(lohi[1]))
@@ -273,7 +281,7 @@ def iptw_part(ctx, fails, cases):
                         # the vectors of probabilities used depend on (bound) resp. (bound, numerator) only: bind once, check equality
                         if dname is None:
                             dname = 'd%d' % bi
-                            lets.append('let %s := %s in' % (dname, qls(o['d'])))
+                            lets.append('Definition %s := %s.' % (dname, qls(o['d'])))
                             dvals = o['d']
                         elif o['d'] != dvals:
                             fails.append((size, 'IPTW.probabilities.unstable', '%s: __denom__ differs from the run with another standardize' % lab, payload))
@@ -281,7 +289,7 @@ def iptw_part(ctx, fails, cases):
                         if stab:
                             if nname is None:
                                 nname = 'n%d_%d' % (bi, k)
-                                lets.append('let %s := %s in' % (nname, qls(o['n'])))
+                                lets.append('Definition %s := %s.' % (nname, qls(o['n'])))
                                 nvals = o['n']
                             elif o['n'] != nvals:
                                 fails.append((size, 'IPTW.probabilities.unstable', '%s: __numer__ differs from the run with another standardize' % lab, payload))
@@ -297,16 +305,21 @@ def iptw_part(ctx, fails, cases):
                                           nname if stab else 'ones', qls(o['w'])))
                         nclip = sum(1 for x, y in zip(raw_d, o['d']) if x != y)
                         combos.append((stab, std, numer, bname, bound, lohi, o, nclip, lab, payload, tw != 'None', k))
-        exprs.append('\n'.join(lets) + '\n[' + ';\n '.join(entries) + ']')
-        work.append((cs, a, raw, raw_d, combos, size))
-    res, errs = coq_eval(ctx, 'c05a', IMPORTS + ['ZepidGen.Gen_weights_Q'], exprs, shard=1)
-    if errs:
-        ctx.broken_ties.append('coq evaluation failed (iptw): ' + errs[0][1][-300:])
+        # the frame's shared vectors are top-level definitions of a per-frame preamble, every combination is one case
+        jobs.append(('c05a%d' % len(work), IMPORTS + ['ZepidGen.Gen_weights_Q'], entries, max(1, (len(entries) + 3) // 4),
+                     'Open Scope Q_scope.\n' + '\n'.join(lets)))
+        work.append([cs, a, raw, raw_d, combos, size])
+    for wk, (r, errs) in zip(work, par_eval(ctx, jobs)):
+        if errs:
+            ctx.broken_ties.append('coq evaluation failed (iptw): ' + errs[0][1][-300:])
+        wk.append(r)
     what = {0: 'vector lengths differ', 1: 'probabilities', 2: 'model', 3: 'spec', 4: 'twin'}
-    for (cs, a, raw, raw_d, combos, size), r in zip(work, res):
-        if r is None or len(r) != len(combos):
+    for (cs, a, raw, raw_d, combos, size, r) in work:
+        if len(r) != len(combos):
             continue
         for (stab, std, numer, bname, bound, lohi, o, nclip, lab, payload, has_tw, k), bad in zip(combos, r):
+            if bad is None:
+                continue
             ctx.programs += 1
             combo = 'stab=%s,std=%s,numer=%s,bound=%s' % (stab, std, 'const' if numer == '1' else 'cov', bname)
             ctx.count('iptw:' + combo)
@@ -392,7 +405,7 @@ def missing_part(ctx, fails, cases):
 def gen_stoch_case(ctx):
     r = ctx.rng
     for attempt in range(50):
-        df, meta = datagen.mixed_frame(r, n=r.randint(30, 60), outcome=r.choice(['binary', 'normal']), n_cat=1, n_cont=1)
+        df, meta = datagen.mixed_frame(r, n=r.randint(24, 36), outcome=r.choice(['binary', 'normal']), n_cat=1, n_cont=1)
         df['fw'] = [r.choice([1, 1, 2, 3]) for _ in range(len(df))]
         df, kind = datagen.reindex(df, r)
         cs = {'part': 'stochastic', 'frame': frame_to_case(df), 'rhs': meta['rhs'], 'numers': [], 'index_kind': kind,
@@ -417,7 +430,7 @@ def gen_stoch_case(ctx):
 
 def stoch_part(ctx, fails, cases):
     from zepid.causal.ipw import StochasticIPTW
-    exprs, work = [], []
+    jobs, work = [], []
     for cs in cases:
         df = case_to_frame(cs['frame'])
         size = len(df)
@@ -436,7 +449,7 @@ def stoch_part(ctx, fails, cases):
         res = score_residual(cs['rhs'], sp.df, a, pd_, w if cs['weights'] else None)
         if res > 1e-6:
             ctx.broken_ties.append('oracle: score equations not solved for A ~ %s (residual %.3g)' % (cs['rhs'], res))
-        lets = ['let a := %s in let y := %s in let pd := %s in let w := %s in' % (bls(a), qls(y), qls(pd_), qls(w))]
+        lets = ['Open Scope Q_scope.\nDefinition a := %s.\nDefinition y := %s.\nDefinition pd := %s.\nDefinition w := %s.' % (bls(a), qls(y), qls(pd_), qls(w))]
         entries, plans = [], []
         for plan in cs['plans']:
             payload = dict(cs, plans=[plan])
@@ -474,15 +487,19 @@ def stoch_part(ctx, fails, cases):
             rows = '(mk_srows %s 0 a y pd w)' % pl
             entries.append('stoch_chk %s %s %s [%s] (%s)' % (TOLQ, rows, oqls(iw), '; '.join(pbs), 'None' if mo != mo else 'Some (%s)' % ql(mo)))
             plans.append((payload, plan, iw, mo, rows))
-        exprs.append('\n'.join(lets) + '\n[' + ';\n '.join(entries) + ']')
-        work.append((plans, '\n'.join(lets), a, pd_, size))
-    res, errs = coq_eval(ctx, 'c05s', IMPORTS, exprs, shard=1)
-    if errs:
-        ctx.broken_ties.append('coq evaluation failed (stochastic): ' + errs[0][1][-300:])
-    for (plans, lets, a, pd_, size), r in zip(work, res):
-        if r is None or len(r) != len(plans):
+        jobs.append(('c05s%d' % len(work), IMPORTS, entries, 2, lets[0]))
+        work.append([plans, lets[0], a, pd_, size])
+    for wk, (r, errs) in zip(work, par_eval(ctx, jobs)):
+        if errs:
+            ctx.broken_ties.append('coq evaluation failed (stochastic): ' + errs[0][1][-300:])
+        wk.append(r)
+    for (plans, lets, a, pd_, size, r) in work:
+        if len(r) != len(plans):
             continue
-        for (payload, plan, iw, mo, rows), (nrows, bad_m, bad_s, mo_ok) in zip(plans, r):
+        for (payload, plan, iw, mo, rows), rr in zip(plans, r):
+            if rr is None:
+                continue
+            nrows, bad_m, bad_s, mo_ok = rr
             ctx.programs += 1
             ctx.count('stochastic:' + plan['kind'] + (',weights' if payload['weights'] else ''))
             ctx.nontriv(['stochastic', plan['kind'], repr(plan['p']), iw[:4]])
@@ -497,12 +514,12 @@ def stoch_part(ctx, fails, cases):
                     i = bad[0]
                     fails.append((size, 'StochasticIPTW.weight.%s.%s' % (kind, plan['kind']), '%s: row %d (A=%d, fitted P(A=1)=%r) has weight %r; disagrees with the %s'
                                   % (lab, i, a[i], pd_[i], iw[i], txt), payload,
-                                  lambda e='%s\nstoch_val %s %d' % (lets, rows, i): ' [expected weight, marginal outcome = %s]' % diag_eval(ctx, e)))
+                                  lambda e='stoch_val %s %d' % (rows, i), pre=lets: ' [expected weight, marginal outcome = %s]' % diag_eval(ctx, e, pre)))
                     break
             else:
                 if not mo_ok:
                     fails.append((size, 'StochasticIPTW.marginal_outcome.' + plan['kind'], '%s: marginal_outcome %r is not the weighted mean of the outcome under the modelled weights'
-                                  % (lab, mo), payload, lambda e='%s\nstoch_val %s 0' % (lets, rows): ' [expected weight of row 0, marginal outcome = %s]' % diag_eval(ctx, e)))
+                                  % (lab, mo), payload, lambda e='stoch_val %s 0' % rows, pre=lets: ' [expected weight of row 0, marginal outcome = %s]' % diag_eval(ctx, e, pre)))
 
 
 # =============================================================================================== IPMW
@@ -514,7 +531,7 @@ def gen_ipmw_case(ctx, index_kind=None):
     r = ctx.rng
     for attempt in range(200):
         K = r.choice([1, 2, 2, 3, 3, 3])
-        pat = r.choice(PATTERNS[K])
+        pat = r.choice(PATTERNS[K] + (['distinct'] * 2 if K > 1 else []))
         n = r.randint(40, 90)
         rs = np.random.RandomState(r.randrange(2 ** 31))
         L = rs.binomial(1, 0.5, n)
@@ -599,7 +616,7 @@ def ipmw_part(ctx, fails, cases):
     import importlib
     mod = importlib.import_module('zepid.causal.ipw.IPMW')
     from zepid.causal.ipw import IPMW
-    exprs, work = [], []
+    exprs, work, uexprs, uwork = [], [], [], []
     for cs in cases:
         df = case_to_frame(cs['frame'])
         df['_rid_'] = np.arange(len(df))
@@ -614,6 +631,17 @@ def ipmw_part(ctx, fails, cases):
             dens_arg, nums_arg = list(cs['dens']), (list(cs['nums']) if cs['nums'] else '1')
         lab = 'IPMW(missing_variable=%r, stabilized=%r) on a %s index, n=%d, pattern %s, models %r / %r' \
               % (mv, cs['stabilized'], cs['index_kind'], n, cs['pattern'], dens_arg, nums_arg)
+        obs = [[bool(pd.notnull(df['M%d' % k].iloc[i])) for k in range(K)] for i in range(n)]
+        # the two uniformity predicates, called directly on the caller's frame (whatever happens in the run below)
+        if K > 1:
+            mvs = ['M%d' % k for k in range(K)]
+            try:
+                got = [bool(IPMW._check_overall_uniform(df, mvs)[1])] + [bool(IPMW._check_uniform(df, mvs[j], mvs[j + 1])) for j in range(K - 1)]
+            except Exception as e:   # noqa
+                got = '%s: %s' % (type(e).__name__, str(e)[:80])
+            uexprs.append('let rows := map (fun o => Build_mrow 0 o [] []) [%s] in '
+                          '(overall_uniform rows %d :: map (fun j => uniform_pair rows j (S j)) (seq 0 (%d - 1)))' % ('; '.join(bls(o) for o in obs), K, K))
+            uwork.append((cs, lab, got, n))
         try:
             with FitSpy(mod) as spy:
                 ipm = IPMW(df, missing_variable=mv, stabilized=cs['stabilized'])
@@ -623,7 +651,6 @@ def ipmw_part(ctx, fails, cases):
         except Exception as e:   # noqa
             fails.append((n, ipmw_key(cs, 'raises'), '%s raised %s: %s' % (lab, type(e).__name__, str(e)[:100]), cs))
             continue
-        obs = [[bool(pd.notnull(df['M%d' % k].iloc[i])) for k in range(K)] for i in range(n)]
         per = 2 if cs['stabilized'] else 1
         recs = spy.records
         if len(recs) % per:
@@ -671,6 +698,17 @@ def ipmw_part(ctx, fails, cases):
     res, errs = coq_eval(ctx, 'c05p', IMPORTS, exprs, shard=3)
     if errs:
         ctx.broken_ties.append('coq evaluation failed (ipmw): ' + errs[0][1][-300:])
+    ures, errs = coq_eval(ctx, 'c05u', IMPORTS, uexprs, shard=40)
+    if errs:
+        ctx.broken_ties.append('coq evaluation failed (ipmw uniformity): ' + errs[0][1][-300:])
+    for (cs, lab, got, n), r in zip(uwork, ures):
+        if r is None:
+            continue
+        ctx.disagreements_checked += len(r)
+        if got != r:
+            idx = 'default-index' if cs['index_kind'] == 'range' else 'nondefault-index'
+            fails.append((n, 'IPMW._check_uniform.%s.%s' % (idx, 'raises' if isinstance(got, str) else 'value'),
+                          '%s: [_check_overall_uniform, _check_uniform(adjacent pairs)...] = %r, the observed flags say %r' % (lab, got, r), cs))
     for (cs, lab, wt, fitted_vars, train_ids, obs, n, raws), r in zip(work, res):
         if r is None:
             continue
